@@ -85,3 +85,55 @@ def mnemonics(sim):
     if isinstance(ex, list):
         ins = ex
     return " ; ".join(i["mn"] for i in ins)
+
+
+def reach_obligations(ck, rule, tm, want_root, label):
+    """Shared necessary condition of every property that speaks about what a call to the faked function does: on each
+    returning path of the selected install roots, the entry patch decodes to a transfer to the trampoline (or, without one,
+    to the replacement) and the trampoline to the replacement (or, for a forced value, to a return). The decision is the
+    same as C01 R1.1 / C15 R15.2-4 / C16 R16.1; it is repeated under the calling property's rule id so that a change which
+    sends these particular installations elsewhere is reported under that property too. Returns the number decided."""
+    n = 0
+    for r in analyse(tm):
+        if r.role == "other" or r.variant.status != "returned" or not want_root(r):
+            continue
+        rn = short(r.root)
+        cls = ("/" + r.cls[0]) if r.cls else ""
+        key = "%s/%s/%s%s/%s" % (label, tm.arch, rn, cls, r.role)
+        if r.err is not None:
+            ck.ob(rule, key + ("/rel-range" if r.range_problem else "/undecodable"), tm.target, False,
+                  "%s bytes of %s: %s" % (r.role, rn, r.err), where(r.ev))
+            continue
+        n += 1
+        mn = mnemonics(r.sim)
+        if tm.arch == "arm":
+            t = r.sim["transfer"]
+            ok, why = False, "no BX through a loaded literal"
+            if t and t["kind"] == "bx" and t["bits"] is not None:
+                if r.repl is not None:
+                    ok = tuple(t["bits"]) == tuple(r.repl.get_bits())
+                    why = "literal loaded into %s is %s, expected %s" % (t["reg"], fmt(from_bits(tuple(t["bits"])), 3), fmt(r.repl.e, 3))
+                else:
+                    val = from_bits(tuple(t["bits"]))
+                    ok = val.op == "gamma" and val.args[1].op == "fnaddr" and val.args[2].op == "fnaddr"
+                    why = "literal is %s" % fmt(val, 4)
+            ck.ob(rule, key + "/dest", tm.target, ok, "executes %s; %s" % (mn, why), where(r.ev))
+            continue
+        eq = (lambda d, t: dest_equals(d, t)) if tm.arch == "x86_64" else (lambda d, t: a64_dest_equals(d, t, r.pc, r.alloc_bound))
+        if r.role == "trampoline":
+            if r.repl is not None:
+                ok, why = eq(r.dest, r.repl) if r.dest and r.dest[0] != "ret" else (False, "no branch to the replacement")
+            else:
+                ok = r.dest is not None and r.dest[0] == "ret"
+                why = "returns to the caller" if ok else "does not end in a return"
+            ck.ob(rule, key + "/dest", tm.target, ok, "trampoline decodes to %s; %s" % (mn, why), where(r.ev))
+        else:
+            tr = [c for c in classify_writes(r.variant, r.func) if c[1] == "trampoline"]
+            if tr:
+                ok, why = eq(r.dest, tr[-1][2]) if r.dest else (False, "entry bytes contain no branch")
+            elif r.repl is not None:
+                ok, why = eq(r.dest, r.repl) if r.dest else (False, "entry bytes contain no branch")
+            else:
+                ok, why = False, "entry written without a trampoline on this path"
+            ck.ob(rule, key + "/dest", tm.target, ok, "entry patch decodes to %s; %s" % (mn, why), where(r.ev))
+    return n
